@@ -72,8 +72,17 @@ def design_level(ctx):
     return rows
 
 
+COMPLEX_SIGS = [("f64", ("f64", ("cd", "i32"))),            # the reported probe: double f(double _Complex z, int k)
+                ("i32", ("i32", ("u8", "cd", "f64", "cd"))),  # not last and last
+                ("i16", ("i16", ("cd",))),                    # last only
+                ("u8", ("u8", ("cf", "i32", "cf"))),          # float _Complex fits a slot
+                ("cd", ("cd", ("ld", "cd", "ld")))]
+
+
 def make_sigs(ctx, rows, per_rt):
-    """For every result type class of the model: per_rt signatures with random parameter lists."""
+    """For every result type class of the model: per_rt signatures with random parameter lists, one for
+    ffi.callback (libffi: no complex types) and one for extern "Python"; plus fixed complex signatures.
+    Entries: (result type class, signature, modes it is used for)."""
     rng = ctx.rng
     rts = sorted(set(r[1] for r in rows))
     sigs = []
@@ -83,16 +92,20 @@ def make_sigs(ctx, rows, per_rt):
         else:
             cands = [rtn] * per_rt
         for j, rt in enumerate(cands):
-            n = rng.choice([0, 1, 2, 3, 4, 5, 7, 8, 9])      # > 6 integer / > 8 float parameters go to the stack
-            sigs.append((rtn, (rt, tuple(rng.choice(CB.ARG_TYPES) for _ in range(n)))))
+            for mode, pool in (("callback", CB.CB_ARG_TYPES), ("extern", CB.EP_ARG_TYPES)):
+                if mode == "callback" and rt in ("cf", "cd"):
+                    continue
+                n = rng.choice([0, 1, 2, 3, 4, 5, 7, 8, 9])      # > 6 integer / > 8 float parameters go to the stack
+                sigs.append((rtn, (rt, tuple(rng.choice(pool) for _ in range(n))), (mode,)))
+    sigs += [(rtn, sig, ("extern",)) for rtn, sig in COMPLEX_SIGS]
     return sigs
 
 
 def run_batch(ctx, rows, sigs, tag, nrows=4):
     rng = ctx.rng
     b = G.Builder(rng, {}, {})
-    tables = [[[CB.rand_cvalue(rng, a) for a in sig[1]] for _ in range(nrows)] for _rtn, sig in sigs]
-    cdef, src = CB.render([s for _r, s in sigs], tables)
+    tables = [[[CB.rand_cvalue(rng, a) for a in sig[1]] for _ in range(nrows)] for _rtn, sig, _m in sigs]
+    cdef, src = CB.render([s for _r, s, _m in sigs], tables)
     import cffi
     d = os.path.join(ctx.tmp, tag)
     os.makedirs(d, exist_ok=True)
@@ -108,9 +121,11 @@ def run_batch(ctx, rows, sigs, tag, nrows=4):
         by_rt.setdefault(row[1], []).append(row)
     cases, meta = [], {}
     cid = 0
-    for k, (rtn, sig) in enumerate(sigs):
+    for k, (rtn, sig, modes) in enumerate(sigs):
         rt = sig[0]
         for (mode, _rtn, bcls, haserr, ocls, kind) in by_rt[rtn]:
+            if mode not in modes:
+                continue
             cid += 1
             body = ["raise"] if bcls == "raise" else ["ret", CB.value_desc(rng, rt, bcls, b)]
             err = CB.value_desc(rng, rt, "err", b) if haserr else None
@@ -119,7 +134,7 @@ def run_batch(ctx, rows, sigs, tag, nrows=4):
                     "onerr": onerr, "classes": [bcls, "error=" if haserr else "noerror", ocls]}
             cases.append(case)
             meta[cid] = (sig, kind)
-    plan = {"dir": d, "module": mod, "sigs": [[s[0], list(s[1])] for _r, s in sigs]}
+    plan = {"dir": d, "module": mod, "sigs": [[s[0], list(s[1])] for _r, s, _m in sigs]}
     obs, crashes = R.execute(ctx, plan, cases, ("cb",), nworkers=4, runner="harness.call_cbexec")
     records = []
     for c in cases:
@@ -211,7 +226,7 @@ def replay(ctx, obj):
 
 def selftest(ctx):
     rows = [("callback", "i16", "ok", True, "absent", "result"), ("extern", "i16", "raise", True, "none", "error")]
-    sigs = [("i16", ("i16", ("i8", "f64")))]
+    sigs = [("i16", ("i16", ("i8", "f64")), ("callback", "extern"))]
     cases, meta, obs, records, bad, crashes, tables = run_batch(ctx, rows, sigs, "self", nrows=2)
     ok1 = not bad and len(records) == 2
     r = json.loads(json.dumps(records[0]))
